@@ -487,7 +487,9 @@ def family_oracles(f, res):
     # reversal: measured 1.5e-12 A (eps 1e-11) / 4e-10 (eps 1e-8); window 1e-9 A resp. 1e3*eps
     tol_x = max(1e-9, 1.0e2 * eps)
     tol_v = max(1e-10, 1.0e1 * eps)
-    if not f["reuse"] and f["com"] is None:
+    if not f["reuse"] and f["com"] is None and f["surface"] == 0:
+        # (ground state only: on an excited surface the force carries the Davidson residual of the CIS solve, whose
+        #  start vectors follow the orbitals of the step before - H2CO S1 over 4 fs retraces to 8e-11 A)
         # without density reuse (and without the periodic centre-of-mass projection, which is not time-symmetric) the force is a function of the positions alone (every SCF starts from the same guess),
         # so velocity Verlet retraces to round-off whatever the SCF threshold: measured <= 3e-14 A, 2e-15 A/fs
         tol_x, tol_v = 1e-11, 1e-12
